@@ -127,6 +127,10 @@ func operandExpr(c *Case, prelude *string, name string, v lang.Value, prov int) 
 			return lang.ValueExpr(v), "literal"
 		}
 	case 2: // field of the host object
+		if v.K == lang.KNull && c.Obj.Mode != "map" {
+			// null by absence: a name that is neither a variable nor a field
+			return lang.Name{N: "Absent" + name}, "absent-name"
+		}
 		if eng.FieldOK(v, false) && !(c.Obj.Mode != "map" && v.K == lang.KNull) {
 			fname := "F" + name
 			c.Obj.Fields = append(c.Obj.Fields, eng.Field{Name: fname, V: v})
@@ -229,6 +233,9 @@ func TestC01Table(t *testing.T) {
 
 func sampleOf(c *Case) map[string]interface{} {
 	s := map[string]interface{}{"script": c.Script, "noopt": c.NoOpt}
+	if c.History != "" && c.History != "none" {
+		s["history"] = c.History
+	}
 	if c.Obj != nil && len(c.Obj.Fields) > 0 {
 		f := map[string]string{}
 		for _, fl := range c.Obj.Fields {
